@@ -1,45 +1,86 @@
-//! Verification shim for the network crate: records outgoing frames.
+//! Verification shim for the network crate (profiles L/R; profile N verifies the real one):
+//! senders record (address, bytes, reliable?) in a log the harness reads; a reliable send returns a
+//! real oneshot receiver whose sender is kept in `ACKS` for the harness to resolve (= peer ACK).
 use async_trait::async_trait;
 use bytes::Bytes;
 use std::error::Error;
 use std::net::SocketAddr;
 use tokio::SeqCell as Mutex;
-pub static SENT: Mutex<Vec<(SocketAddr, Bytes, bool)>> = Mutex::new(Vec::new());
+pub struct Sent {
+    pub to: SocketAddr,
+    pub data: Bytes,
+    pub reliable: bool,
+}
+pub static SENT: Mutex<Vec<Sent>> = Mutex::new(Vec::new());
+pub static ACKS: Mutex<Vec<Option<tokio::sync::oneshot::Sender<Bytes>>>> = Mutex::new(Vec::new());
+/// frames written back to the peer through `Writer` (ACKs / replies of a MessageHandler)
+pub static REPLIES: Mutex<Vec<Bytes>> = Mutex::new(Vec::new());
 pub type CancelHandler = tokio::sync::oneshot::Receiver<Bytes>;
 pub struct Writer;
 impl futures::sink::Sink<Bytes> for Writer {
     type Error = std::io::Error;
-    fn poll_ready(self: std::pin::Pin<&mut Self>, _: &mut std::task::Context<'_>) -> std::task::Poll<Result<(), Self::Error>> { std::task::Poll::Ready(Ok(())) }
-    fn start_send(self: std::pin::Pin<&mut Self>, _item: Bytes) -> Result<(), Self::Error> { Ok(()) }
-    fn poll_flush(self: std::pin::Pin<&mut Self>, _: &mut std::task::Context<'_>) -> std::task::Poll<Result<(), Self::Error>> { std::task::Poll::Ready(Ok(())) }
-    fn poll_close(self: std::pin::Pin<&mut Self>, _: &mut std::task::Context<'_>) -> std::task::Poll<Result<(), Self::Error>> { std::task::Poll::Ready(Ok(())) }
+    fn poll_ready(self: std::pin::Pin<&mut Self>, _: &mut std::task::Context<'_>) -> std::task::Poll<Result<(), Self::Error>> {
+        std::task::Poll::Ready(Ok(()))
+    }
+    fn start_send(self: std::pin::Pin<&mut Self>, item: Bytes) -> Result<(), Self::Error> {
+        REPLIES.lock().unwrap().push(item);
+        Ok(())
+    }
+    fn poll_flush(self: std::pin::Pin<&mut Self>, _: &mut std::task::Context<'_>) -> std::task::Poll<Result<(), Self::Error>> {
+        std::task::Poll::Ready(Ok(()))
+    }
+    fn poll_close(self: std::pin::Pin<&mut Self>, _: &mut std::task::Context<'_>) -> std::task::Poll<Result<(), Self::Error>> {
+        std::task::Poll::Ready(Ok(()))
+    }
 }
 #[async_trait]
 pub trait MessageHandler: Clone + Send + Sync + 'static {
     async fn dispatch(&self, writer: &mut Writer, message: Bytes) -> Result<(), Box<dyn Error>>;
 }
 pub struct Receiver<H: MessageHandler>(std::marker::PhantomData<H>);
-impl<H: MessageHandler> Receiver<H> { pub fn spawn(_a: SocketAddr, _h: H) {} }
+impl<H: MessageHandler> Receiver<H> {
+    pub fn spawn(_a: SocketAddr, _h: H) {}
+}
 #[derive(Default)]
 pub struct SimpleSender;
 impl SimpleSender {
-    pub fn new() -> Self { Self }
-    pub async fn send(&mut self, address: SocketAddr, data: Bytes) { SENT.lock().unwrap().push((address, data, false)); }
-    pub async fn broadcast(&mut self, addresses: Vec<SocketAddr>, data: Bytes) { for a in addresses { self.send(a, data.clone()).await; } }
-    pub async fn lucky_broadcast(&mut self, mut addresses: Vec<SocketAddr>, data: Bytes, nodes: usize) { addresses.truncate(nodes); self.broadcast(addresses, data).await }
+    pub fn new() -> Self {
+        Self
+    }
+    pub async fn send(&mut self, address: SocketAddr, data: Bytes) {
+        SENT.lock().unwrap().push(Sent { to: address, data, reliable: false });
+    }
+    pub async fn broadcast(&mut self, addresses: Vec<SocketAddr>, data: Bytes) {
+        for a in addresses {
+            self.send(a, data.clone()).await;
+        }
+    }
+    pub async fn lucky_broadcast(&mut self, mut addresses: Vec<SocketAddr>, data: Bytes, nodes: usize) {
+        addresses.truncate(nodes);
+        self.broadcast(addresses, data).await
+    }
 }
 #[derive(Default)]
-pub struct ReliableSender { pub acks: Vec<tokio::sync::oneshot::Sender<Bytes>> }
+pub struct ReliableSender;
 impl ReliableSender {
-    pub fn new() -> Self { Self { acks: Vec::new() } }
+    pub fn new() -> Self {
+        Self
+    }
     pub async fn send(&mut self, address: SocketAddr, data: Bytes) -> CancelHandler {
-        SENT.lock().unwrap().push((address, data, true));
+        SENT.lock().unwrap().push(Sent { to: address, data, reliable: true });
         let (tx, rx) = tokio::sync::oneshot::channel();
-        self.acks.push(tx);
+        ACKS.lock().unwrap().push(Some(tx));
         rx
     }
     pub async fn broadcast(&mut self, addresses: Vec<SocketAddr>, data: Bytes) -> Vec<CancelHandler> {
-        let mut h = Vec::new(); for a in addresses { h.push(self.send(a, data.clone()).await); } h
+        let mut h = Vec::new();
+        for a in addresses {
+            h.push(self.send(a, data.clone()).await);
+        }
+        h
     }
-    pub async fn lucky_broadcast(&mut self, mut addresses: Vec<SocketAddr>, data: Bytes, nodes: usize) -> Vec<CancelHandler> { addresses.truncate(nodes); self.broadcast(addresses, data).await }
+    pub async fn lucky_broadcast(&mut self, mut addresses: Vec<SocketAddr>, data: Bytes, nodes: usize) -> Vec<CancelHandler> {
+        addresses.truncate(nodes);
+        self.broadcast(addresses, data).await
+    }
 }
